@@ -362,7 +362,13 @@ func genAccess(pkgs []*packages.Package, leanDir, outDir string) {
 		if a.fn != b.fn {
 			return a.fn < b.fn
 		}
-		return a.kind < b.kind
+		if a.kind != b.kind {
+			return a.kind < b.kind
+		}
+		if a.inInit != b.inInit {
+			return !a.inInit
+		}
+		return !a.guard && b.guard
 	})
 
 	// every package-level variable in scope (so that the table also says which ones are never written)
